@@ -366,7 +366,7 @@ def check(ctx, case):
 
 def shard_main(ctx):
     from hypothesis import given
-    n = {"quick": 250, "thorough": 2500}[ctx.tier]
+    n = {"quick": 250, "thorough": 1200}[ctx.tier]
 
     @given(cases())
     def test(case):
